@@ -77,8 +77,9 @@ class Location(object):
                 self.file_path = file_path.name
             except AttributeError:
                 self.file_path = "<io>"
-            if self.file_path is None:
-                # For example an unnamed temporary file.
+            if not isinstance(self.file_path, str) or not self.file_path:
+                # For example an unnamed temporary file or a file opened from a file descriptor, where
+                # the name is the number of the descriptor.
                 self.file_path = "<io>"
         self._line = 0
         self._column = 0
